@@ -131,3 +131,71 @@ def first_or_error(items: list, what: str):
     if not items:
         raise AnalysisError(f"anchor not found: {what}")
     return items[0]
+
+
+# ---------------------------------------------------------------------------------------------------------------------------------
+def falsy_numeric(ctx, rid: str, name_re: str, what: str, scope: Tuple[str, ...] = ("src/primaite/",), floor: int = 1) -> None:
+    """A numeric setting for which 0 is a legal value must not be tested by truthiness (`x or default`, `if x:`, `if not x:`): the
+    value 0 is then treated like "not given".  Subjects: attributes / parameters / locals annotated int or float (also Optional) and
+    string-keyed reads (`cfg.get("k")`, `cfg["k"]`) whose name matches `name_re`.  Every truthiness test of a subject is an instance;
+    comparisons (`is None`, `> 0`, `== 0`) are not truthiness tests."""
+    import re as _re
+    ix = ctx.ix
+    ctx.rule(rid, f"{what}: 0 is a legal value, so these settings are never tested by truthiness (`x or d`, `if x:`)")
+    pat = _re.compile(name_re)
+    NUM = ("int", "float", "Optional[int]", "Optional[float]", "Union[int, float]", "Optional[Union[int, float]]", "int | None", "float | None")
+    fields = set()
+    for c in ix.classes.values():
+        for nm, f in c.fields.items():
+            a = unparse(f.ann) if f.ann is not None else ""
+            if a in NUM and pat.search(nm):
+                fields.add(nm)
+    n_subjects = len(fields)
+    n = 0
+    for f in ix.functions:
+        if isinstance(f.node, ast.Lambda) or not f.path.startswith(scope):
+            continue
+        pn = {a.arg for a in f.node.args.args + f.node.args.kwonlyargs if a.annotation is not None and unparse(a.annotation) in NUM and pat.search(a.arg)}
+        n_subjects += len(pn)
+
+        def subject(t: ast.AST) -> Optional[str]:
+            if isinstance(t, ast.Attribute) and t.attr in fields:
+                return unparse(t)
+            if isinstance(t, ast.Name) and t.id in pn:
+                return t.id
+            if isinstance(t, ast.Call) and isinstance(t.func, ast.Attribute) and t.func.attr == "get" and len(t.args) == 1 and isinstance(t.args[0], ast.Constant) \
+                    and isinstance(t.args[0].value, str) and pat.search(t.args[0].value):
+                return unparse(t)
+            if isinstance(t, ast.Subscript) and isinstance(t.slice, ast.Constant) and isinstance(t.slice.value, str) and pat.search(t.slice.value):
+                return unparse(t)
+            return None
+
+        def truth_tests(t: ast.AST):
+            if isinstance(t, ast.UnaryOp) and isinstance(t.op, ast.Not):
+                yield from truth_tests(t.operand)
+            elif isinstance(t, ast.BoolOp):
+                for v in t.values:
+                    yield from truth_tests(v)
+            else:
+                yield t
+
+        for x in ast.walk(f.node):
+            cands: List[ast.AST] = []
+            if isinstance(x, (ast.If, ast.IfExp, ast.While)):
+                cands = list(truth_tests(x.test))
+            elif isinstance(x, ast.BoolOp) and isinstance(x.op, ast.Or):
+                cands = [t for v in x.values[:-1] for t in truth_tests(v)]
+            for t in cands:
+                sname = subject(t)
+                if sname is None:
+                    continue
+                n += 1
+                ctx.fail(rid, ctx.key(f, f"`{sname}` is not tested by truthiness"), f.loc(t),
+                         f"`{unparse(x)[:80]}` treats `{sname}` == 0 like a missing value: a scenario (or caller) that sets it to 0 gets the "
+                         f"default / the other branch instead")
+    ctx.count(f"{rid}:numeric settings watched", n_subjects)
+    if n_subjects < floor:
+        raise AnalysisError(f"{rid}: no numeric setting matching /{name_re}/ found - the subject list is empty")
+    if n == 0:
+        ctx.ok(rid, f"src/primaite::<package>::no truthiness test of a numeric setting matching /{name_re}/", "",
+               f"{n_subjects} numeric settings watched, none is tested by truthiness")
